@@ -63,7 +63,17 @@ def generate(rng, tier: str, index: int) -> dict:
                 sib['nh'] = others[j % len(others)]
                 uniq.insert(uniq.index(b) + 1, sib)
     nstatic = rng.randint(0, min(3, len(uniq)))
-    return {'micro_seed': rng.randint(1, 1 << 48), 'knobs': knobs(rng), 'kinds': kinds, 'routes': uniq, 'nstatic': nstatic, 'gap': rng.choice([0.0, 0.01, 0.2])}
+    plan = {'micro_seed': rng.randint(1, 1 << 48), 'knobs': knobs(rng), 'kinds': kinds, 'routes': uniq, 'nstatic': nstatic, 'gap': rng.choice([0.0, 0.01, 0.2])}
+    f = rng.fork('nexthop-ext')  # (a side stream: the plans generated so far keep their draws)
+    if f.chance(0.2):
+        # RFC 8950 on every session: IPv4 unicast routes may name an IPv6 next hop; they then travel in MP_REACH_NLRI, next to others
+        # that keep an IPv4 next hop in the classic fields
+        for k in kinds:
+            k['nexthop_ext'] = True
+        for r in uniq:
+            if r['fam'] == 'v4u' and r['nh'] != 'self' and f.chance(0.5):
+                r['nh'] = f.choice(['2001:db8::9', '2001:db8:77::1'])
+    return plan
 
 
 def execute(plan: dict) -> dict:
